@@ -28,7 +28,8 @@ def check(ctx: Ctx) -> None:
         sc = [c for c in repo.calls_in(gi) if callee_attr(c) == "__init__"]
         ob.require(len(sc) == 1, "Gateway.__init__: super().__init__ call not found")
         v = arg(sc[0], 2, "_startcount")
-        iv = repo.fold_in(v, gi) if v is not None else None
+        from ..util import expand as _exp
+        iv = repo.fold_in(_exp(repo, gi, v), gi) if v is not None else None
         ob.site(gi, sc[0], "initiating side starts at an odd id", startcount=iv)
         fs = repo.func(f"{GB}.serve")
         wc = [c for c in repo.calls_in(fs) if isinstance(c.func, ast.Name) and c.func.id == "WorkerGateway"]
@@ -36,7 +37,7 @@ def check(ctx: Ctx) -> None:
         v2 = arg(wc[0], 2, "_startcount")
         bi = repo.func(f"{GB}.BaseGateway.__init__")
         dflt = repo.fold_in(bi.node.args.defaults[-1], bi) if bi.node.args.defaults else None
-        wv = repo.fold_in(v2, fs) if v2 is not None else dflt
+        wv = repo.fold_in(_exp(repo, fs, v2), fs) if v2 is not None else dflt
         ob.site(fs, wc[0], "worker side starts at an even id", startcount=wv, base_default=dflt)
         if not (isinstance(iv, int) and isinstance(wv, int) and iv % 2 == 1 and wv % 2 == 0):
             ob.violation(gi, sc[0], f"start counts {iv!r} (initiator) / {wv!r} (worker) do not have different parity: both sides would allocate the same channel ids",
